@@ -213,6 +213,12 @@ Theorem variant_names_distinct : forall fields : list field,
   (forall f g, In f fields -> In g fields -> opt_recurse g = true -> fname f <> (strip_raw (fname g) ++ "_full")%string) ->
   NoDup (flat_map names_of fields).
 Proof. exact ParseBodyProof.variant_names_distinct. Qed.
+(* (f') the names of the generated type aliases are injective in (struct, field): two different recurse fields - of one struct or of two structs of a
+   module - never get the same alias. This statement produced finding D22 (repaired: the name now carries the length of the struct's name;
+   ParseBodyProof.alias_names_old_clash is the old clash `A` + `bc` = `Ab` + `c`). A struct's name is an identifier: it does not start with a digit. *)
+Theorem alias_names_injective : forall s1 i1 s2 i2, starts_nondigit (strip_raw s1) -> starts_nondigit (strip_raw s2) ->
+  (fst (alias_names s1 i1) = fst (alias_names s2 i2) \/ snd (alias_names s1 i1) = snd (alias_names s2 i2)) -> strip_raw s1 = strip_raw s2 /\ i1 = i2.
+Proof. exact ParseBodyProof.alias_names_injective. Qed.
 (* (g) the payload of a plain field is the field type as the user wrote it (print_embed through the template), the borrowed enum holds a
    reference to it, and no alias is generated *)
 Theorem plain_payload : forall sn (gf: gfield), wf (gf_ty gf) ->
@@ -282,3 +288,4 @@ Print Assumptions variant_names_distinct.
 Print Assumptions plain_payload.
 Print Assumptions struct_expansion_end_to_end.
 Print Assumptions declared_type_obeys_C01.
+Print Assumptions alias_names_injective.
